@@ -1,33 +1,33 @@
 (* "A successfully loaded object with >= 1 port and >= 1 frequency is accepted by vnadata_cksave":
    exact acceptance conditions on the loader models' objects, and the witnesses where acceptance fails.
    Nothing here changes a model. *)
-Require Import List NArith ZArith Bool Lia Arith.
+Require Import List NArith ZArith QArith Qcanon Bool Lia Arith.
 Import ListNotations.
 Require Import LV.Files.TsTok LV.Files.TsParse LV.Files.TsWf LV.Files.NpdScan LV.Files.SaveModel LV.Files.LoadFailSave.
 Require LV.Files.NpdLoad LV.Files.NpdWf.
 
 
-(* ---- every impedance the Touchstone loader stores has failed the test "x <= 0" ------------------------------------- *)
+(* ---- every impedance the Touchstone loader stores has passed the test "x > 0.0" (fix DB93) ------------------------ *)
 Definition hz (h : hdr) : Prop :=
-  xle (h_z0 h) xq0 = false /\ match h_ref h with Some l => z0_pos l = true | None => True end.
+  xlt xq0 (h_z0 h) = true /\ match h_ref h with Some l => z0_gt0 l = true | None => True end.
 Definition zinv (s : pst) : Prop :=
   match s with
-  | SStart | SVersionArg | SWantOption _ | SErr _ => True
+  | SStart | SVersionArg | SWantOption _ | SErr _ | SLate _ => True
   | SOpt h | SOptR h | SBody h | SArg h _ | SInfo h | SV2 h _ | SV1Wait h _ | SV1Line h _ _ => hz h
-  | SRef h _ acc => hz h /\ z0_pos acc = true
-  | SNoise _ o _ _ _ | SEof _ o | SDone o => z0_pos (TsParse.o_z0 o) = true
+  | SRef h _ acc => hz h /\ z0_gt0 acc = true
+  | SNoise _ o _ _ _ | SEof _ o | SDone o => z0_gt0 (TsParse.o_z0 o) = true
   end.
 
-Lemma z0_pos_repeat : forall z n, xle z xq0 = false -> z0_pos (repeat z n) = true.
-Proof. intros z n H. induction n; simpl; auto. unfold z0_pos in *. simpl. rewrite H. simpl. exact IHn. Qed.
-Lemma z0_pos_app : forall a b, z0_pos (a ++ b) = z0_pos a && z0_pos b.
-Proof. intros; unfold z0_pos; apply forallb_app. Qed.
-Lemma z0_pos_rev : forall l, z0_pos (rev l) = z0_pos l.
+Lemma z0_gt0_repeat : forall z n, xlt xq0 z = true -> z0_gt0 (repeat z n) = true.
+Proof. intros z n H. induction n; [reflexivity|]. unfold z0_gt0 in *. cbn [repeat forallb]. rewrite H. exact IHn. Qed.
+Lemma z0_gt0_app : forall a b, z0_gt0 (a ++ b) = z0_gt0 a && z0_gt0 b.
+Proof. intros; unfold z0_gt0; apply forallb_app. Qed.
+Lemma z0_gt0_rev : forall l, z0_gt0 (rev l) = z0_gt0 l.
 Proof.
-  induction l; simpl; auto. rewrite z0_pos_app, IHl. unfold z0_pos at 2 3. simpl. rewrite andb_true_r. apply andb_comm.
+  induction l; [reflexivity|]. cbn [rev]. rewrite z0_gt0_app, IHl. unfold z0_gt0 at 2 3. cbn [forallb]. rewrite andb_true_r. apply andb_comm.
 Qed.
-Lemma z0_list_pos : forall h n, hz h -> z0_pos (z0_list h n) = true.
-Proof. intros h n (A&B). unfold z0_list. destruct (h_ref h); [exact B | apply z0_pos_repeat; exact A]. Qed.
+Lemma z0_list_pos : forall h n, hz h -> z0_gt0 (z0_list h n) = true.
+Proof. intros h n (A&B). unfold z0_list. destruct (h_ref h); [exact B | apply z0_gt0_repeat; exact A]. Qed.
 
 Lemma finalize_z0 : forall h o, TsParse.o_z0 (finalize h o) = TsParse.o_z0 o.
 Proof. intros; unfold finalize; destruct (h_v2 h); reflexivity. Qed.
@@ -38,13 +38,13 @@ Ltac zbrk :=
   | |- context [if ?x then _ else _] => destruct x eqn:?; cbn [zinv] in *; try exact I; try assumption
   end).
 
-Lemma z_eof_tok : forall h o t, z0_pos (TsParse.o_z0 o) = true -> zinv (eof_tok h o t).
+Lemma z_eof_tok : forall h o t, z0_gt0 (TsParse.o_z0 o) = true -> zinv (eof_tok h o t).
 Proof. intros; unfold eof_tok, err; zbrk. rewrite finalize_z0; assumption. Qed.
-Lemma z_end_tok : forall h o t, z0_pos (TsParse.o_z0 o) = true -> zinv (end_tok h o t).
+Lemma z_end_tok : forall h o t, z0_gt0 (TsParse.o_z0 o) = true -> zinv (end_tok h o t).
 Proof. intros; unfold end_tok; zbrk; apply z_eof_tok; assumption. Qed.
-Lemma z_noise_tok : forall h o l j f t, z0_pos (TsParse.o_z0 o) = true -> zinv (noise_tok h o l j f t).
+Lemma z_noise_tok : forall h o l j f t, z0_gt0 (TsParse.o_z0 o) = true -> zinv (noise_tok h o l j f t).
 Proof. intros; unfold noise_tok, err; zbrk; apply z_end_tok; assumption. Qed.
-Lemma z_after_data_tok : forall h o t, z0_pos (TsParse.o_z0 o) = true -> zinv (after_data_tok h o t).
+Lemma z_after_data_tok : forall h o t, z0_gt0 (TsParse.o_z0 o) = true -> zinv (after_data_tok h o t).
 Proof. intros; unfold after_data_tok, err; zbrk; apply z_end_tok; assumption. Qed.
 Lemma z_v2_tok : forall h d t, hz h -> zinv (v2_tok h d t).
 Proof.
@@ -56,7 +56,7 @@ Proof. intros h H; unfold network_data, err; zbrk. Qed.
 Lemma z_v1_wait_tok : forall h v t, hz h -> zinv (v1_wait_tok h v t).
 Proof.
   intros h v t H; unfold v1_wait_tok, err; zbrk.
-  all: apply z_eof_tok; unfold v1_obj; cbn [TsParse.o_z0]; apply z0_pos_repeat; apply H.
+  all: apply z_eof_tok; unfold v1_obj; cbn [TsParse.o_z0]; apply z0_gt0_repeat; apply H.
 Qed.
 Lemma z_v1_line_tok : forall h v acc t, hz h -> zinv (v1_line_tok h v acc t).
 Proof. intros h v acc t H; unfold v1_line_tok, err; zbrk; apply z_v1_wait_tok; assumption. Qed.
@@ -84,13 +84,13 @@ Proof.
   - destruct t as [k|o| | | | | | |]; unfold err; try exact I; cbn [zinv]; try assumption.
     + destruct o; cbn [zinv]; try assumption; (eapply hz_same; [| |exact H]; reflexivity).
     + apply z_body_tok; assumption.
-  - unfold err; zbrk. destruct H as (A&B). split; [cbn; assumption | exact B].
+  - unfold err; zbrk. destruct H as (A&B). split; [cbn [set_z0 h_z0]; apply negb_false_iff; assumption | exact B].
   - apply z_body_tok; assumption.
   - apply z_arg_tok; assumption.
   - destruct H as (Hh&Ha). destruct left as [|k]; [exact I|]. destruct t as [k0|o| |w|z|x| | |]; unfold err; try exact I.
-    destruct (xle x xq0) eqn:Ex; [exact I|]. destruct k; cbn [zinv].
-    + destruct Hh as (A&B). split; [exact A|]. change (z0_pos (rev (x :: acc)) = true). rewrite z0_pos_rev. unfold z0_pos in *. simpl. rewrite Ex. exact Ha.
-    + split; [exact Hh|]. unfold z0_pos in *. simpl. rewrite Ex. exact Ha.
+    destruct (xlt xq0 x) eqn:Ex; cbn [negb]; [|exact I]. destruct k; cbn [zinv].
+    + destruct Hh as (A&B). split; [exact A|]. change (z0_gt0 (rev (x :: acc)) = true). rewrite z0_gt0_rev. unfold z0_gt0 in *. cbn [forallb]. rewrite Ex. exact Ha.
+    + split; [exact Hh|]. unfold z0_gt0 in *. cbn [forallb]. rewrite Ex. exact Ha.
   - destruct t as [k| | | | | | | |]; try (apply z_body_tok; assumption).
     destruct k; try (apply z_body_tok; assumption). exact H.
   - apply z_v2_tok; assumption.
@@ -100,6 +100,7 @@ Proof.
   - apply z_v1_line_tok; assumption.
   - exact H.
   - exact I.
+  - destruct t; exact I.
 Qed.
 
 Lemma pstep_zinv : forall s x, zinv s -> zinv (pstep s x).
@@ -107,7 +108,7 @@ Proof. intros s x H. unfold pstep. destruct (tok_of (flags_of s) x); [apply on_t
 Lemma fold_zinv : forall r s, zinv s -> zinv (fold_left pstep r s).
 Proof. induction r; intros s H; simpl; [exact H | apply IHr; apply pstep_zinv; exact H]. Qed.
 
-Theorem load_ts_z0_pos_lemma : forall bytes o, load_ts bytes = Ok o -> z0_pos (TsParse.o_z0 o) = true.
+Theorem load_ts_z0_gt0_lemma : forall bytes o, load_ts bytes = Ok o -> z0_gt0 (TsParse.o_z0 o) = true.
 Proof.
   intros bytes o H. unfold load_ts, parse in H.
   pose proof (fold_zinv (tokens bytes) SStart I) as Hz.
@@ -115,69 +116,84 @@ Proof.
   injection H as <-. exact Hz.
 Qed.
 
-(* ---- Touchstone ------------------------------------------------------------------------------------------------ *)
-(* for every object the loader returns (obj_wf: H and G have two ports) with >= 1 port and >= 1 frequency,
-   vnadata_cksave accepts exactly when every reference impedance passes the saver's test and - for a version-1
-   object saved under a strict .sNp name - there are at most four ports with one common impedance *)
-Theorem ts_cksave_iff_lemma : forall bytes o promote,
-  load_ts bytes = Ok o -> (1 <= TsParse.o_ports o)%nat -> TsParse.o_freqs o <> [] ->
-  cksave (ts_sobj promote o) =
-  z0_pos (TsParse.o_z0 o) &&
-  (TsParse.o_v2 o || ((Nat.leb (TsParse.o_ports o) 4 || promote) && (z0_equal (TsParse.o_z0 o) || promote))).
+
+(* a value > 0 also fails the saver's test "creal(z0) <= 0.0", and is equal to itself *)
+Lemma xlt_not_xle : forall z, xlt xq0 z = true -> xle z xq0 = false.
 Proof.
-  intros bytes o promote Hl Hp Hf. apply load_ts_ok_wf_lemma in Hl. destruct Hl as (_&_&_&Hhg).
-  unfold cksave, cksave_gen, filetype_checks, convertible_check, eff_format, ts_sobj; cbn [SaveModel.o_type SaveModel.o_ports SaveModel.o_freqs SaveModel.o_filetype SaveModel.o_format SaveModel.o_per_f_z0 SaveModel.o_z0_real_pos SaveModel.o_z0_equal SaveModel.o_promote].
+  intros z H. destruct z as [q|[|]|]; cbn in *; try discriminate; try reflexivity.
+  apply negb_true_iff in H. exact H.
+Qed.
+Lemma z0_gt0_pos : forall l, z0_gt0 l = true -> z0_pos l = true.
+Proof.
+  unfold z0_gt0, z0_pos. induction l; simpl; intros H; [reflexivity|]. apply andb_true_iff in H. destruct H as [A B].
+  rewrite (xlt_not_xle a A), (IHl B). reflexivity.
+Qed.
+Theorem load_ts_z0_pos_lemma : forall bytes o, load_ts bytes = Ok o -> z0_pos (TsParse.o_z0 o) = true.
+Proof. intros bytes o H. apply z0_gt0_pos. apply (load_ts_z0_gt0_lemma bytes o H). Qed.
+
+(* ---- Touchstone ------------------------------------------------------------------------------------------------ *)
+Definition npd_refuses (o : tsobj) : bool :=       (* the NPD saver refuses dB of a parameter that is not a power wave ratio *)
+  match TsParse.o_fmt o, TsParse.o_type o with FDB, TsParse.PS => false | FDB, _ => true | _, _ => false end.
+
+(* for every object the loader returns, with >= 1 port and >= 1 frequency, in the format the loader left behind, and
+   for every class of save name: what vnadata_cksave answers *)
+Theorem ts_cksave_by_name_lemma : forall bytes o nc,
+  load_ts bytes = Ok o -> (1 <= TsParse.o_ports o)%nat -> TsParse.o_freqs o <> [] ->
+  cksave (ts_sobj nc o) =
+  match save_filetype nc (TsParse.o_v2 o) with
+  | (TS2, _) => true
+  | (TS1, promote) => (Nat.leb (TsParse.o_ports o) 4 || promote) && (z0_equal (TsParse.o_z0 o) || promote)
+  | (NPD, _) => negb (npd_refuses o)
+  end.
+Proof.
+  intros bytes o nc Hl Hp Hf. pose proof (load_ts_z0_pos_lemma bytes o Hl) as Hz.
+  apply load_ts_ok_wf_lemma in Hl. destruct Hl as (_&_&_&Hhg).
+  unfold cksave, cksave_gen, filetype_checks, convertible_check, eff_format, ts_sobj, npd_refuses; cbn [SaveModel.o_type SaveModel.o_ports SaveModel.o_freqs SaveModel.o_filetype SaveModel.o_format SaveModel.o_per_f_z0 SaveModel.o_z0_real_pos SaveModel.o_z0_equal SaveModel.o_promote].
   assert (Hn : Nat.leb 1 (TsParse.o_ports o) = true) by (apply Nat.leb_le; exact Hp).
   assert (Hq : Nat.eqb (length (TsParse.o_freqs o)) 0 = false) by (destruct (TsParse.o_freqs o); [congruence | reflexivity]).
-  rewrite Hn, Hq.
+  rewrite Hn, Hq, Hz.
   assert (H2 : is_hg (TsParse.o_type o) = true -> Nat.eqb (TsParse.o_ports o) 2 = true) by (intro A; rewrite (Hhg A); reflexivity).
-  destruct (TsParse.o_type o), (TsParse.o_fmt o), (TsParse.o_v2 o); cbn in *; rewrite ?H2 by reflexivity; cbn;
-    rewrite ?andb_true_r; reflexivity.
+  destruct nc, (TsParse.o_type o), (TsParse.o_fmt o), (TsParse.o_v2 o); cbn in *; rewrite ?H2 by reflexivity; cbn;
+    rewrite ?andb_true_r, ?orb_true_r, ?orb_false_r; reflexivity.
 Qed.
 
-(* with the .ts name (promotion allowed) the only condition left is the one on the impedances *)
-Theorem ts_cksave_promote_lemma : forall bytes o,
-  load_ts bytes = Ok o -> (1 <= TsParse.o_ports o)%nat -> TsParse.o_freqs o <> [] ->
-  z0_pos (TsParse.o_z0 o) = true -> cksave (ts_sobj true o) = true.
-Proof.
-  intros bytes o Hl Hp Hf Hz. rewrite (ts_cksave_iff_lemma bytes o true Hl Hp Hf), Hz.
-  rewrite !orb_true_r. reflexivity.
-Qed.
-
-(* hence, with the .ts name, every loaded object with >= 1 port and >= 1 frequency is accepted, and in general the
-   only conditions are those of a strict Touchstone 1 name *)
+(* under a .ts name every loaded object is accepted *)
 Theorem ts_cksave_ts_name_lemma : forall bytes o,
-  load_ts bytes = Ok o -> (1 <= TsParse.o_ports o)%nat -> TsParse.o_freqs o <> [] -> cksave (ts_sobj true o) = true.
-Proof. intros bytes o Hl Hp Hf. apply (ts_cksave_promote_lemma bytes o Hl Hp Hf). apply (load_ts_z0_pos_lemma bytes o Hl). Qed.
-
-Theorem ts_cksave_exact_lemma : forall bytes o promote,
-  load_ts bytes = Ok o -> (1 <= TsParse.o_ports o)%nat -> TsParse.o_freqs o <> [] ->
-  cksave (ts_sobj promote o) =
-  (TsParse.o_v2 o || ((Nat.leb (TsParse.o_ports o) 4 || promote) && (z0_equal (TsParse.o_z0 o) || promote))).
+  load_ts bytes = Ok o -> (1 <= TsParse.o_ports o)%nat -> TsParse.o_freqs o <> [] -> cksave (ts_sobj NameTs o) = true.
 Proof.
-  intros bytes o promote Hl Hp Hf. rewrite (ts_cksave_iff_lemma bytes o promote Hl Hp Hf), (load_ts_z0_pos_lemma bytes o Hl).
-  reflexivity.
+  intros bytes o Hl Hp Hf. rewrite (ts_cksave_by_name_lemma bytes o NameTs Hl Hp Hf).
+  destruct (TsParse.o_v2 o); cbn; rewrite ?orb_true_r; reflexivity.
 Qed.
 
-(* "# GHz S RI R nan" with two ports, one frequency: loads; under the name x.s2p the saver refuses it
-   (NaN != NaN: "ports with different reference impedances"), under x.ts it accepts it *)
+(* "# GHz S RI R nan" is refused since fix DB93 (it loaded before, and the object could not be saved as x.s2p) *)
 Definition rnan_bytes : list N :=
   [35;32;71;72;122;32;83;32;82;73;32;82;32;110;97;110;10;                       (* # GHz S RI R nan *)
    49;32;49;32;50;32;51;32;52;32;53;32;54;32;55;32;56;10]%N.                     (* 1 1 2 3 4 5 6 7 8 *)
-Theorem ts_strict_name_rnan_refuted_lemma :
-  exists o, load_ts rnan_bytes = Ok o /\ TsParse.o_ports o = 2%nat /\ length (TsParse.o_freqs o) = 1%nat /\
-            cksave (ts_sobj false o) = false /\ cksave (ts_sobj true o) = true.
-Proof. eexists. split; [vm_compute; reflexivity|]. vm_compute. auto. Qed.
+Theorem ts_r_nan_refused_lemma : load_ts rnan_bytes = Error EBADMSG.
+Proof. vm_compute. reflexivity. Qed.
 
-(* a version-1 file with five ports: loads; the saver refuses it under x.s5p ("more than four ports"), accepts x.ts *)
+(* a version-1 file with five ports: loads; refused under x.s5p ("more than four ports"), accepted under x.ts *)
 Definition five_bytes : list N :=
   [35;32;71;72;122;32;83;32;82;73;32;82;32;53;48;10]%N ++                        (* # GHz S RI R 50 *)
   [49]%N ++ concat (repeat [32;49]%N 10) ++ [10]%N ++
   concat (repeat ([32;49]%N ++ concat (repeat [32;49]%N 9) ++ [10]%N) 4).
 Theorem ts_strict_name_five_ports_refuted_lemma :
   exists o, load_ts five_bytes = Ok o /\ TsParse.o_ports o = 5%nat /\ length (TsParse.o_freqs o) = 1%nat /\
-            cksave (ts_sobj false o) = false /\ cksave (ts_sobj true o) = true.
+            cksave (ts_sobj NameSnp o) = false /\ cksave (ts_sobj NameTs o) = true.
 Proof. eexists. split; [vm_compute; reflexivity|]. vm_compute. auto. Qed.
+
+(* a VERSION-2 file with five ports: a .sNp name resets the file type to Touchstone 1 (no promotion): refused under x.s5p *)
+Definition five_v2_bytes : list N :=
+  [91;86;101;114;115;105;111;110;93;32;50;46;48;10;                                                 (* [Version] 2.0 *)
+   35;32;71;72;122;32;83;32;82;73;32;82;32;53;48;10;                                                (* # GHz S RI R 50 *)
+   91;78;117;109;98;101;114;32;111;102;32;80;111;114;116;115;93;32;53;10;                           (* [Number of Ports] 5 *)
+   91;78;117;109;98;101;114;32;111;102;32;70;114;101;113;117;101;110;99;105;101;115;93;32;49;10;   (* [Number of Frequencies] 1 *)
+   91;78;101;116;119;111;114;107;32;68;97;116;97;93;10]%N ++                                        (* [Network Data] *)
+  [49]%N ++ concat (repeat [32;49]%N 50) ++ [10]%N ++ [91;69;110;100;93;10]%N.                      (* 1 1 1 ... [End] *)
+Theorem ts_v2_five_ports_snp_name_refuted_lemma :
+  exists o, load_ts five_v2_bytes = Ok o /\ TsParse.o_v2 o = true /\ TsParse.o_ports o = 5%nat /\
+            cksave (ts_sobj NameSnp o) = false /\ cksave (ts_sobj NameTs o) = true /\ cksave (ts_sobj NameOther o) = true.
+Proof. eexists. split; [vm_compute; reflexivity|]. vm_compute. auto 10. Qed.
 
 (* ---- NPD ----------------------------------------------------------------------------------------------------------- *)
 (* with the default format (vnadata_set_format(vdp, NULL)) every loaded object with >= 1 port and >= 1 frequency is
